@@ -25,11 +25,24 @@ type wgen struct {
 	// per permanode item: dates used, values present per attribute
 	pnDates map[int]map[int64]bool
 	pnVals  map[int]map[string][]string
-	dates   []int64
+	// values ever added to a multi-valued attribute of a permanode (claims are
+	// generated out of date order, so "currently present" is not enough to
+	// keep a value from being added twice)
+	ever  map[string]bool
+	dates []int64
+}
+
+func (g *wgen) addedBefore(pn int, attr, val string) bool {
+	k := fmt.Sprintf("%d|%s|%s", pn, attr, val)
+	if g.ever[k] {
+		return true
+	}
+	g.ever[k] = true
+	return false
 }
 
 func newWgen(r *simcore.Rand) *wgen {
-	g := &wgen{r: r, pnDates: map[int]map[int64]bool{}, pnVals: map[int]map[string][]string{}}
+	g := &wgen{r: r, pnDates: map[int]map[int64]bool{}, pnVals: map[int]map[string][]string{}, ever: map[string]bool{}}
 	g.add(indexsim.Item{K: "key", S: 0})
 	return g
 }
@@ -209,7 +222,7 @@ func (g *wgen) claim(pn int, pool []int64) {
 			setPlain("title", titleVals)
 		case x < 42:
 			v := tagVals[r.Intn(len(tagVals))]
-			if has(vals["tag"], v) {
+			if has(vals["tag"], v) || g.addedBefore(pn, "tag", v) {
 				continue
 			}
 			it.CT, it.Attr, it.Val = "add", "tag", v
@@ -246,7 +259,7 @@ func (g *wgen) claim(pn int, pool []int64) {
 				c = append(c, g.files...)
 			}
 			t := g.pick(c)
-			if t == pn || has(vals["camliMember"], fmt.Sprintf("#%d", t)) {
+			if t == pn || has(vals["camliMember"], fmt.Sprintf("#%d", t)) || g.addedBefore(pn, "camliMember", fmt.Sprint(t)) {
 				continue
 			}
 			refVal("camliMember", t, "add")
@@ -313,6 +326,23 @@ func genWorld08(r *simcore.Rand) *indexsim.WorldSpec {
 	if r.Bool(0.4) {
 		for i := r.Range(1, 3); i > 0; i-- {
 			pool = append(pool, int64(1+r.Intn(300))*1000)
+		}
+	}
+	// collections: permanodes with several members / paths (relations with
+	// more than one related node)
+	for k := r.Intn(3); k > 0 && len(g.pns) >= 3; k-- {
+		coll := g.pick(g.pns)
+		for m := r.Range(2, 4); m > 0; m-- {
+			t := g.pick(g.pns)
+			if r.Bool(0.2) && len(g.files) > 0 {
+				t = g.pick(g.files)
+			}
+			key := fmt.Sprintf("#%d", t)
+			if t == coll || has(g.pnVals[coll]["camliMember"], key) || g.addedBefore(coll, "camliMember", fmt.Sprint(t)) {
+				continue
+			}
+			g.pnVals[coll]["camliMember"] = append(g.pnVals[coll]["camliMember"], key)
+			g.add(indexsim.Item{K: "claim", S: 0, PN: coll, CT: "add", Attr: "camliMember", Ref: t + 1, D: g.date(coll, pool)})
 		}
 	}
 	for guard := 0; len(g.items) < target && guard < 200; guard++ {
